@@ -355,6 +355,12 @@ fn run(data: &[u8], o: &Opts, t: &mut Trace) -> Verdict {
         if flg & 0x20 != 0 {
             invalid!("zlib: FDICT set");
         }
+        // documented extra rule of the crate's ring mode: the ring must hold the declared window
+        if let Mem::Ring { contents, .. } = &o.mem {
+            if contents.len() < (1usize << ((cmf >> 4) + 8)) {
+                invalid!("zlib: declared window larger than the ring");
+            }
+        }
     }
     let (mut ring, ring_start): (Option<Vec<u8>>, usize) = match &o.mem {
         Mem::Flat => (None, 0),
